@@ -14,7 +14,8 @@ harness/c13_run.c under RLIMIT_CPU 5 s / RLIMIT_AS 2 GB / 60 s wall, observed fr
 Verdicts (nothing is concluded from gcc accepting or rejecting an edited program):
   (i)   no death by signal, no `internal error`, no hang (a timeout is re-run alone with 10x limits; only a run
         that really burns 50 s of CPU is a hang - a wall-clock timeout on a loaded machine is never a verdict)
-  (ii)  exit 0  => the output exists and `as` accepts it (assembled once per distinct output text)
+  (ii)  exit 0  => the output exists, `as` accepts it (assembled once per distinct output text) and no operand is
+        the text `(null)` (a NULL string printed by the code generator; `as` reads it as a symbol named null)
   (iii) exit !=0 => stderr is non-empty and its first line is `<file>:<line>: ` naming an existing file and a line
         1..(number of lines + 1) of it (the line after the last one is where chibicc places end-of-file), or a
         `<pseudo-file>`/command-line message when options are involved
@@ -318,6 +319,18 @@ def assemble(path):
     return rc, e
 
 
+def null_operand(path):
+    """`(null)` outside string data is printf("%s", NULL) in the code generator: the output is not a translation
+    of the input even where `as` happens to read it as a symbol named null.  -> mnemonic or None"""
+    with open(path, "rb") as f:
+        for line in f:
+            if b"(null)" in line:
+                w = line.split()
+                if w and w[0] not in (b".ascii", b".string", b".asciz"):
+                    return w[0].decode("ascii", "replace")
+    return None
+
+
 def _work(item):
     """One work item = the neighbourhood `spec` of one seed.  Returns counts and anomalies."""
     chibicc, runner, wd, name, valid, src, spec = item
@@ -367,6 +380,10 @@ def _work(item):
                 asm_checked += 1
                 if rc != 0:
                     an = ("as-reject", norm_as_msg(e))
+                else:
+                    mn = null_operand(p)
+                    if mn:
+                        an = ("asm-null-operand", mn)
             open(p, "w").close()        # keep the name as a "seen" marker, drop the text
         if an:
             anomalies.append({"seed": name, "valid": valid, "vid": cid, "cls": an[0], "detail": an[1], "data": data,
@@ -474,6 +491,8 @@ def case_signatures(chibicc, tree, runner, wd, data, opts, asmdir, sym=None, con
             rc, e = assemble(p)
             if rc != 0:
                 an = ("as-reject", norm_as_msg(e))
+            elif null_operand(p):
+                an = ("asm-null-operand", null_operand(p))
     if an:
         sigs.append(signature(sym, {"cls": an[0], "detail": an[1], "status": status, "trace": tr, "opts": opts,
                                     "vid": "x", "seed": "?"}))
